@@ -10,25 +10,29 @@
 
    Registry mode (RInit/RNext): all histories of observations over a tiny
    alphabet of classes / tokens / interpreters.  The incremental registry
-   (RegStep: what TokensTrace runs over recorded observations) must accept a
-   history exactly when the accepted observations are Functional and Injective
-   in the global sense, and must reject exactly the observation that breaks
-   one of them.                                                              *)
+   (RegStep: what TokensTrace runs over recorded observations) must reject an
+   observation only when it contradicts an earlier one in the named way, and
+   must reject at least one observation of every history whose observations
+   are not Functional and Injective in the global sense.                                                              *)
 EXTENDS Tokens, Json
 
-VARIABLES val, out, reg, acc, lastbad, n
-rvars == <<reg, acc, lastbad, n>>
-UInit == /\ reg = EmptyReg /\ acc = {} /\ lastbad = {} /\ n = 0 /\ val \in Universe
+VARIABLES val, out, rg, seen, prev, laste, lastbad, nrej, cnt
+rgvars == <<rg, seen, prev, laste, lastbad, nrej, cnt>>
+UInit == /\ rg = EmptyReg /\ seen = {} /\ prev = {} /\ laste = [none |-> TRUE] /\ lastbad = {} /\ nrej = 0 /\ cnt = 0 /\ val \in Universe
          /\ out = ToJson([v |-> val, c |-> Rep(val), d |-> DetRep(val), plain |-> Plain(val), hows |-> Hows(val)])
-UNext == UNCHANGED <<val, out, rvars>>
+UNext == UNCHANGED <<val, out, rgvars>>
 
-EqvReflexive  == Eqv(val, val, TRUE) /\ Eqv(val, val, FALSE)
-EqvSymmetric  == \A w \in ByKind[val.k] : /\ Eqv(val, w, FALSE) = Eqv(w, val, FALSE)
-                                          /\ Eqv(val, w, TRUE) = Eqv(w, val, TRUE)
-\* transitivity through the representative: everything equivalent to val is equivalent to val's representative
-EqvTransitive == \A w \in ByKind[val.k] : /\ Eqv(val, w, FALSE) => Eqv(Rep(val), w, FALSE)
-                                          /\ Eqv(val, w, TRUE) => Eqv(DetRep(val), w, TRUE)
-StrictRefines == \A w \in ByKind[val.k] : Eqv(val, w, TRUE) => Eqv(val, w, FALSE)
+\* Eqv is an equivalence on the universe, the strict class refines the class, representatives represent
+EqvReflexive == Eqv(val, val, TRUE) /\ Eqv(val, val, FALSE)
+EqvOK == LET rp == Rep(val) IN
+         \A w \in Bucket[Sig(val)] :
+            LET a == Eqv(val, w, FALSE)
+                b == Eqv(val, w, TRUE)
+            IN /\ a = Eqv(w, val, FALSE) /\ b = Eqv(w, val, TRUE)       \* symmetric
+               /\ b => a                                               \* strict refines
+               /\ a => Eqv(rp, w, FALSE)                               \* transitive through the representative
+\* the bucket discriminator never separates equivalent values
+SigRespected == \A w \in ByKind[val.k] : Sig(w) # Sig(val) => ~Eqv(val, w, FALSE)
 \* the universe is not vacuous: it contains layout-only pairs and insertion-order-only pairs
 HasTwins      == (val.k \in { "nd", "df" } /\ val.lay \notin { "C", "dict" }) => \E w \in ByKind[val.k] : w # val /\ Eqv(val, w, FALSE)
 
@@ -38,20 +42,26 @@ CONSTANTS NDet, NTok, NProc, MaxLen
 \* strict class d belongs to class (d + 1) \div 2 ; strict classes 1, 2 are plain
 Events == { [det |-> d, cls |-> (d + 1) \div 2, plain |-> d <= 2, tok |-> t, proc |-> p, how |-> h, raised |-> FALSE] :
               d \in 1..NDet, t \in 1..NTok, p \in 0..(NProc - 1), h \in { "same", "pickle" } }
-RInit == val = NoneV /\ out = "" /\ reg = EmptyReg /\ acc = {} /\ lastbad = {} /\ n = 0
-RNext == /\ n < MaxLen
+NoEvent == [none |-> TRUE]
+RInit == /\ val = NoneV /\ out = "" /\ rg = EmptyReg /\ seen = {} /\ prev = {} /\ laste = NoEvent /\ lastbad = {} /\ nrej = 0 /\ cnt = 0
+RNext == /\ cnt < MaxLen
          /\ \E e \in Events :
-              LET r == RegStep(reg, e) IN
-              /\ reg' = r.reg
-              /\ lastbad' = r.bad
-              /\ acc' = IF r.bad = {} THEN acc \cup { e } ELSE acc
-              /\ n' = n + 1
+              LET r == RegStep(rg, e) IN
+              /\ rg' = r.reg
+              /\ laste' = e /\ lastbad' = r.bad
+              /\ prev' = seen /\ seen' = seen \cup { e }
+              /\ nrej' = IF r.bad = {} THEN nrej ELSE nrej + 1
+              /\ cnt' = cnt + 1
          /\ UNCHANGED <<val, out>>
 
-\* the registry is exactly the relation of the accepted observations
-RegistryIsAccepted ==
-  /\ \A e \in acc : FKey(e) \in DOMAIN reg.tokOf /\ reg.tokOf[FKey(e)].tok = e.tok
-  /\ \A e \in acc : e.tok \in DOMAIN reg.clsOf /\ reg.clsOf[e.tok] = e.cls
-\* accepted observations never contradict each other
-AcceptedConsistent == Functional(acc) /\ Injective(acc)
+\* soundness of a rejection: the rejected observation really contradicts an earlier one, in the named way
+RejectionIsConflict ==
+  /\ ("Distinct" \in lastbad) => \E e1 \in prev : e1.tok = laste.tok /\ e1.cls # laste.cls
+  /\ (lastbad \ { "Distinct", "DetAcrossInterpreters" } # {}) => \E e1 \in prev : FKey(e1) = FKey(laste) /\ e1.tok # laste.tok
+  /\ ("DetAcrossInterpreters" \in lastbad) =>
+        laste.plain /\ \E e1 \in prev : e1.det = laste.det /\ e1.proc # laste.proc /\ e1.tok # laste.tok
+\* completeness of the verdict: a history whose observations are not functional / injective has a rejection
+ConflictIsRejected == (~Functional(seen) \/ ~PlainFunctional(seen) \/ ~Injective(seen)) => nrej > 0
+\* every observation is in the registry unless an earlier one holds its slot
+RegistryCoversSeen == \A e \in seen : FKey(e) \in DOMAIN rg.tokOf /\ e.tok \in DOMAIN rg.clsOf
 =============================================================================
